@@ -137,7 +137,7 @@ def run(ctx):
             runner = rng.choice(["sync", "async"])
             kind, obs = attempt(g, inputs, runner)
             n_eval += 1
-            batch.add(i, 110 + entry_choices.index(ep), "either_vres", f"(validate_w true $nodes $bound [] $eps $sel {pdl.c_dictval(N, inputs)}, validate_w false $nodes $bound [] $eps $sel {pdl.c_dictval(N, inputs)})", vres(kind))
+            batch.add(i, 110 + entry_choices.index(ep), "some_scope_vres $nodes $bound [] $eps $sel", f"{pdl.c_dictval(N, inputs)}", vres(kind))
             if kind != "accepted":
                 ctx.violation("oracle", f"all required inputs{' and the parameters of entry point(s) ' + str(ep) if ep else ''} supplied, yet the call is rejected: {obs.get('error_repr')}",
                               case={"graph": g, "run": {"inputs": inputs, "entry_point": ep}}, observed=spec)
@@ -147,7 +147,7 @@ def run(ctx):
                 kind2, obs2 = attempt(g, less, runner)
                 n_eval += 1
                 dist["omissions"] += 1
-                batch.add(i, 120, "either_vres", f"(validate_w true $nodes $bound [] $eps $sel {pdl.c_dictval(N, less)}, validate_w false $nodes $bound [] $eps $sel {pdl.c_dictval(N, less)})", vres(kind2))
+                batch.add(i, 120, "some_scope_vres $nodes $bound [] $eps $sel", f"{pdl.c_dictval(N, less)}", vres(kind2))
                 if kind2 != "missing":
                     ctx.violation("oracle", f"required input {x!r} omitted but the call was {kind2} ({obs2.get('error_repr')})",
                                   case={"graph": g, "run": {"inputs": less, "omitted": x, "entry_point": ep}}, observed=spec)
@@ -159,7 +159,7 @@ def run(ctx):
                 less = {k: v for k, v in inputs.items() if k not in spec["entry"][ep[0]]}
                 kind3, obs3 = attempt(g, less, runner)
                 n_eval += 1
-                batch.add(i, 121, "either_vres", f"(validate_w true $nodes $bound [] $eps $sel {pdl.c_dictval(N, less)}, validate_w false $nodes $bound [] $eps $sel {pdl.c_dictval(N, less)})", vres(kind3))
+                batch.add(i, 121, "some_scope_vres $nodes $bound [] $eps $sel", f"{pdl.c_dictval(N, less)}", vres(kind3))
                 if kind3 != "missing":
                     ctx.violation("oracle", f"cycle seed of the only entry point omitted but the call was {kind3}", case={"graph": g, "run": {"inputs": less}}, observed=spec)
         if len(g["nodes"]) >= 3 and (bound or g.get("entrypoints") or g.get("selected") is not None or spec["entry"]):
